@@ -600,5 +600,5 @@ func gen(r *h.Rand, tier string, emit func([]string)) {
 }
 
 func main() {
-	h.Main(h.Harness{Gen: gen, NewCase: func() h.CaseRunner { return newRunner(0) }, OpTimeout: 20 * time.Second})
+	h.Main(h.Harness{Gen: gen, NewCase: func() h.CaseRunner { return newRunner(0) }, OpTimeout: 120 * time.Second})
 }
